@@ -14,6 +14,7 @@ def _s(x) -> str:
 def registries() -> dict:
     """The live registries as plain data (also used by harness/roundtriprig.py)."""
     import exabgp.reactor.protocol  # noqa: F401  (imports everything the reactor registers)
+    import exabgp.configuration.configuration  # noqa: F401  (... and what the configuration parser registers: the daemon always loads both; without it the result depends on who imported what before)
     from exabgp.bgp.message.update.attribute.attribute import Attribute
     from exabgp.bgp.message.update.attribute.bgpls.linkstate import LinkState
     from exabgp.bgp.message.update.attribute.community.extended.community import ExtendedCommunity, ExtendedCommunityIPv6
